@@ -49,6 +49,7 @@ type tokInfo struct {
 	K   int    `json:"k"`
 	V   string `json:"v"`
 	Off int    `json:"off"`
+	N   int    `json:"n"`
 	L   int    `json:"l"`
 	C   int    `json:"c"`
 }
@@ -585,6 +586,10 @@ func (p *pool) wait() error {
 // confirm re-runs a failing case in a fresh driver process; only a reproduced
 // mismatch is reported as a violation.
 func confirm(c *core.Ctx, d *drv, key, what string, replay any, again func(fd *drv) (bool, error)) {
+	if c.NViolations() >= 40 { // enough reproduced evidence; do not spend the time budget on more of the same
+		c.Add("mismatches_not_confirmed_after_40", 1)
+		return
+	}
 	fd, err := d.fresh()
 	if err != nil {
 		c.Logf("cannot start a fresh driver to confirm %s: %v", key, err)
